@@ -6,10 +6,12 @@ import (
 	"context"
 	"fmt"
 	"os"
+	"sync/atomic"
 	"time"
 
 	"github.com/tsuna/gohbase/hrpc"
 	"github.com/tsuna/gohbase/internal/verifsim"
+	"github.com/tsuna/gohbase/region"
 	"github.com/tsuna/gohbase/zk"
 )
 
@@ -62,3 +64,44 @@ func errClass(err error) string {
 }
 
 var _ = hrpc.SkipBatch
+
+
+// The hook variables of the client and of the region package are written once per process; scenarios swap the function
+// behind them atomically (an assignment must not race with goroutines an earlier scenario's client left behind).
+var simHookCur, simRegionHookCur atomic.Pointer[func(point string, c any, arg any)]
+
+func init() {
+	VerifHook = func(point string, c any, arg any) {
+		if h := simHookCur.Load(); h != nil {
+			(*h)(point, c, arg)
+		}
+	}
+	region.VerifHook = func(point string, c any, arg any) {
+		if h := simRegionHookCur.Load(); h != nil {
+			(*h)(point, c, arg)
+		}
+	}
+}
+
+func simSetHook(f func(point string, c any, arg any)) {
+	if f == nil {
+		simHookCur.Store(nil)
+		return
+	}
+	simHookCur.Store(&f)
+}
+
+func simSetRegionHook(f func(point string, c any, arg any)) {
+	if f == nil {
+		simRegionHookCur.Store(nil)
+		return
+	}
+	simRegionHookCur.Store(&f)
+}
+
+func simRegionHook() func(point string, c any, arg any) {
+	if h := simRegionHookCur.Load(); h != nil {
+		return *h
+	}
+	return nil
+}
